@@ -70,3 +70,10 @@ Definition check_soft (tau : Q) (pf counter : nat) (t0 : list Q) (trace : list (
   check_soft_steps tau pf counter t0 trace
   && all_close (tol_w * inject_Z (Z.of_nat (length trace)))
        (run_soft tau pf counter t0 (map fst trace)) (last (map snd trace) t0).
+
+(* Rainbow: the hypotheses of done_masks_next_rainbow hold for the observed rows — every target distribution has as
+   many atoms as the support and total mass 1 (float32 softmax: within 1e-5), as has exp(log-probabilities) trivially
+   in length *)
+Definition check_rainbow_mass (support : list Q) (rows : list rrow) : bool :=
+  forallb (fun x => Nat.eqb (length (r_p x)) (length support) && Nat.eqb (length (r_logp x)) (length support)
+                    && close (1 # 100000) (qsum (r_p x)) 1) rows.
